@@ -109,3 +109,76 @@ def expected_ops(tk, keyidx=None, has_control=True):
         else:
             ops.append(("S", keyidx[op[1]] if keyidx is not None else op[1], op[2]))
     return ops
+
+
+# ------------------------------------------------------------------ decimal time grid (C10 b) ----
+def _cap(x):
+    return int(min(x, 10 ** 9))
+
+
+def travel_events(ops, t0, reading_times, n_prev, out_time, max_dt):
+    """Split a returned call sequence at its sensor updates; segment j is the travel to reading j, the tail the travel to
+    the output time.  Returns the PlanOK events of the travels made in THIS tick (readings n_prev.. and the tail)."""
+    import math
+    from fractions import Fraction
+    segs = [[]]
+    for op in ops:
+        if op[0] in ("S", "Y"):
+            segs.append([])
+        else:
+            segs[-1].append(op[1])
+    if len(segs) != len(reading_times) + 1:
+        return None
+    starts = [t0] + list(reading_times)
+    targets = list(reading_times) + [out_time]
+    events = []
+    for j in list(range(n_prev, len(reading_times))) + [len(reading_times)]:
+        delta = Fraction(targets[j]) - Fraction(starts[j])
+        dirn = (delta > 0) - (delta < 0)
+        steps = []
+        tot = Fraction(0)
+        for dt in segs[j]:
+            f = Fraction(dt)
+            tot += f
+            exc = max(Fraction(0), abs(f) - Fraction(max_dt))
+            steps.append({"sgn": (f > 0) - (f < 0), "excess_ps": _cap(math.ceil(exc * 10 ** 12))})
+        tiny = abs(delta) < Fraction(1, 10 ** 9)
+        events.append({"dir": 0 if (dirn == 0) else dirn, "steps": steps, "resid_ps": _cap(math.ceil(abs(tot - delta) * 10 ** 12)),
+                       "tiny": bool(tiny), "start": starts[j], "target": targets[j], "dts": segs[j]})
+        # a travel shorter than the slack may legitimately be skipped or taken; direction is only meaningful beyond the slack
+        if tiny and not steps:
+            events[-1]["dir"] = 0 if dirn == 0 else dirn
+    return events
+
+
+def decimal_python(mods, scns, unit):
+    """Run each history on runtime.ManagedFilter with decimal times; return per scenario the list of travel events."""
+    import mfrep
+    runtime = mods["runtime"]
+    out = []
+    for s in scns:
+        max_dt = s["max"] * unit
+        ekf = mfrep.RecFilter(1 if s["hasControl"] else 0, max_dt)
+        mf = runtime.ManagedFilter(ekf, start_time=s["t0"] * unit, state=(), covariance="P0")
+        times = []
+        evs = []
+        ok = True
+        for i, tk in enumerate(s["ticks"]):
+            if tk["refused"]:
+                continue
+            readings = [runtime.StampedReading(r["t"] * unit, r["key"], id=r["id"]) for r in tk["rs"]]
+            n_prev = len(times)
+            times += [r["t"] * unit for r in tk["rs"]]
+            try:
+                ret = mf.tick(tk["out"] * unit, control=(i + 1) if tk["ctl"] else None, readings=readings)
+            except Exception as e:
+                evs.append({"exception": repr(e)[:200]})
+                ok = False
+                break
+            te = travel_events(list(ret.state), s["t0"] * unit, times, n_prev, tk["out"] * unit, max_dt)
+            if te is None:
+                evs.append({"exception": "call sequence does not contain one update per reading"})
+                break
+            evs += te
+        out.append(evs)
+    return out
